@@ -21,6 +21,17 @@ fn main() {
 	let ks = alpha::k_candles();
 	let mut missing = vec![];
 	let mut not_exercised = vec![];
+	let mut totals: std::collections::BTreeMap<(String, usize), [u64; 4]> = Default::default();
+	macro_rules! tally {
+		($sys:expr) => {
+			for (n, s, c) in $sys.totals() {
+				let e = totals.entry((n, s)).or_insert([0; 4]);
+				for k in 0..4 {
+					e[k] += c[k];
+				}
+			}
+		};
+	}
 	for c in ind::defaults() {
 		let name = c.const_name();
 		if let Some(o) = &only {
@@ -36,6 +47,7 @@ fn main() {
 		let base = indicator_configs(Some(name), false);
 		let sys = IndSys::new(&format!("{name}/depth/default+small"), base, ks[..2].to_vec(), ks.clone(), oracle, false);
 		h.go(&sys, &Limits::depth(if thorough { 7 } else { 6 }).wall_secs(600), true);
+		tally!(sys);
 		not_exercised.extend(sys.unexercised());
 		// (2) every MA kind in every MA slot and every source, one slot varied at a time
 		let mut kinds = indicator_configs(Some(name), true);
@@ -43,12 +55,15 @@ fn main() {
 		if !kinds.is_empty() {
 			let sys = IndSys::new(&format!("{name}/depth/ma-kinds+sources"), kinds, ks[1..2].to_vec(), ks.clone(), oracle, false);
 			h.go(&sys, &Limits::depth(if thorough { 6 } else { 5 }).wall_secs(600), true);
+			tally!(sys);
 		}
 		// (3) default configuration: long flat streams with deviations (periods of the default config are 10-50)
 		let sys = IndSys::new(&format!("{name}/deviation/default"), indicator_configs(Some(name), false), vec![ks[1], ks[5]], vec![ks[1], ks[2], ks[3], ks[0], ks[5]], oracle, true);
 		h.go(&sys, &Limits::deviation(if thorough { 2 } else { 1 }, if thorough { 160 } else { 90 }).wall_secs(600), true);
+		tally!(sys);
 		let sys2 = IndSys::new(&format!("{name}/deviation-2/default"), indicator_configs(Some(name), false), vec![ks[1]], vec![ks[1], ks[2], ks[3]], oracle, true);
 		h.go(&sys2, &Limits::deviation(if thorough { 3 } else { 2 }, if thorough { 60 } else { 36 }).wall_secs(600), true);
+		tally!(sys2);
 		not_exercised.extend(sys.unexercised().into_iter().map(|s| format!("[deviation] {s}")));
 		// (4) tiny units: the same candles scaled by 2^-60 (guards written as `> 0` / `!= 0` must not become thresholds)
 		{
@@ -56,6 +71,7 @@ fn main() {
 			let tiny: Vec<yata::core::Candle> = ks.iter().map(|c| yata::core::Candle { open: c.open * sc, high: c.high * sc, low: c.low * sc, close: c.close * sc, volume: c.volume }).collect();
 			let sys = IndSys::new(&format!("{name}/depth/tiny-units"), indicator_configs(Some(name), false), tiny[1..2].to_vec(), tiny.clone(), oracle, false);
 			h.go(&sys, &Limits::depth(if thorough { 5 } else { 4 }).wall_secs(600), true);
+			tally!(sys);
 		}
 		// (5) every float parameter at small / large values, long streams with sustained trends
 		{
@@ -73,6 +89,7 @@ fn main() {
 			if !cfgs.is_empty() {
 				let sys = IndSys::new(&format!("{name}/deviation/float-parameters"), cfgs, vec![ks[1]], vec![ks[1], ks[2], ks[3]], oracle, true);
 				h.go(&sys, &Limits::deviation(if thorough { 2 } else { 1 }, if thorough { 400 } else { 300 }).wall_secs(600), true);
+				tally!(sys);
 			}
 		}
 		// (6) hundreds of swing highs / lows on one side of the slow averages: a zigzag on a steady trend
@@ -80,12 +97,18 @@ fn main() {
 		{
 			let sys = IndSys::new(&format!("{name}/deviation/zigzag-trend"), indicator_configs(Some(name), false), vec![ks[1]], vec![ks[1], ks[2]], oracle, true).with_zigzag();
 			h.go(&sys, &Limits::deviation(if thorough { 1 } else { 0 }, if thorough { 1200 } else { 640 }).wall_secs(600), true);
+			tally!(sys);
 		}
 	}
 	if !missing.is_empty() {
 		h.run.machinery_error(format!("no reference model for: {missing:?}"));
 	}
 	h.run.note("signal_slots_not_fully_exercised", serde_json::json!(not_exercised));
+	if is_c06 {
+		let never: Vec<String> = totals.iter().filter(|(_, c)| c[0] == 0 || c[1] == 0 || c[2] == 0).map(|((n, s), c)| format!("{n} signal #{s}: documented rule said buy {} times, sell {}, silent {}, open {}", c[0], c[1], c[2], c[3])).collect();
+		h.run.note("signal_slots_never_expected_in_any_system", serde_json::json!(never));
+		h.run.note("signal_slot_expectations", serde_json::json!(totals.iter().map(|((n, s), c)| format!("{n}#{s}: buy {} sell {} silent {} open {}", c[0], c[1], c[2], c[3])).collect::<Vec<_>>()));
+	}
 	h.run.assume("reference formulas are my reading of each indicator's doc comment and linked formula (DESIGN.md Appendix A); entries marked there with a dagger follow the implementation where the documentation is silent");
 	h.finish();
 }
